@@ -340,6 +340,16 @@ func Reaches(to ssa.Value, pred func(ssa.Value) bool) bool {
 			return walk(x.Tuple, d+1)
 		case *ssa.Slice:
 			return walk(x.X, d+1)
+		case *ssa.Alloc:
+			// an address "is" what was stored into it (spilled parameters, named results)
+			for _, r := range *x.Referrers() {
+				if st, ok := r.(*ssa.Store); ok && st.Addr == x {
+					if walk(st.Val, d+1) {
+						return true
+					}
+				}
+			}
+			return false
 		case *ssa.UnOp:
 			if x.Op == token.MUL {
 				// load: follow stores into a local alloc
